@@ -2202,7 +2202,9 @@ def _config_str(
     if _REGISTRY[selector].is_method:
       method_name = parts.pop(0)
       parts[0] += f'.{method_name}'  # parts[0] is the class name.
-    return parts
+    # Break ties between keys that differ only in case by the keys themselves,
+    # so that the output never depends on the order bindings were made in.
+    return parts, selector, scope
 
   import_manager = ImportManager(_IMPORTS)
   if import_manager.dynamic_registration:
